@@ -3,6 +3,7 @@ package main
 import (
 	"fmt"
 	"sort"
+	"strconv"
 	"strings"
 
 	"github.com/hashicorp/hcl/v2"
@@ -45,6 +46,12 @@ func (v V) Cty() cty.Value {
 		r = cty.StringVal(v.S)
 	case "num":
 		r = cty.NumberIntVal(v.N)
+	case "f64":
+		f, err := strconv.ParseFloat(v.S, 64)
+		if err != nil {
+			panic("bad f64 " + v.S)
+		}
+		r = cty.NumberFloatVal(f)
 	case "numf":
 		var err error
 		r, err = cty.ParseNumberVal(v.S)
